@@ -75,14 +75,43 @@ def kindP : Pm Kind := do
   let t ← tok
   if t == "pq" then pure .pq else if t == "dpq" then pure .dpq else throw s!"bad kind {t}"
 
-def icall : Pm ICall := do
+/-- a client call: a primitive call, or `nth(k)` / `nth_back(k)`, which std's default methods implement as
+`k` discarded advances (stopping at the first `None`) followed by one more advance -/
+inductive XCall where
+  | prim (c : ICall)
+  | nth (back : Bool) (k : Nat)
+
+def xcall : Pm XCall := do
   let t ← tok
   match t with
-  | "f" => pure .next
-  | "b" => pure .nextBack
-  | "l" => pure .len
-  | "h" => pure .sizeHint
-  | _ => throw s!"bad iterator call {t}"
+  | "f" => pure (.prim .next)
+  | "b" => pure (.prim .nextBack)
+  | "l" => pure (.prim .len)
+  | "h" => pure (.prim .sizeHint)
+  | _ =>
+    if t.startsWith "n" then
+      match (t.drop 1).toString.toNat? with
+      | some k => pure (.nth false k)
+      | none => throw s!"bad iterator call {t}"
+    else if t.startsWith "m" then
+      match (t.drop 1).toString.toNat? with
+      | some k => pure (.nth true k)
+      | none => throw s!"bad iterator call {t}"
+    else throw s!"bad iterator call {t}"
+
+/-- run an extended call on a machine given by its primitive step function -/
+def xstep {σ : Type} (step : σ → ICall → R (σ × IOut)) (st : σ) : XCall → R (σ × IOut)
+  | .prim c => step st c
+  | .nth back k => do
+    let adv := if back then ICall.nextBack else ICall.next
+    let mut st := st
+    for _ in [0:k] do
+      let (st', o) ← step st adv
+      st := st'
+      match o with
+      | .slot (some _) => pure ()
+      | _ => return (st, .slot none)
+    step st adv
 
 /-! ## canonical printing -/
 def showOptP : Option Int → String
@@ -199,7 +228,7 @@ def buildOther (kind : Kind) (xs : Array Entry) : R (Store Int) :=
   | .dpq => DQ.pushAll xs.toList Store.empty
 
 /-- run an `iter_mut` program on the map -/
-def runIterMut (kind : Kind) (prog : Array (ICall × IMWrite Int)) (s : Store Int) : R (Store Int × String) := do
+def runIterMut (kind : Kind) (prog : Array (XCall × IMWrite Int)) (s : Store Int) : R (Store Int × String) := do
   let n := s.map.size
   let mut map := s.map
   let mut out := ""
@@ -208,11 +237,11 @@ def runIterMut (kind : Kind) (prog : Array (ICall × IMWrite Int)) (s : Store In
   for (c, w) in prog do
     let o ← match kind with
       | .pq => do
-        let (it', o) := pit.step n c
+        let (it', o) ← xstep (fun it c => pure (PIterMut.step n it c)) pit c
         pit := it'
         pure o
       | .dpq => do
-        let (it', o) ← dit.step n c
+        let (it', o) ← xstep (DIterMut.step n) dit c
         dit := it'
         pure o
     out := out ++ " " ++ showOut map o
@@ -221,46 +250,68 @@ def runIterMut (kind : Kind) (prog : Array (ICall × IMWrite Int)) (s : Store In
     | _ => pure ()
   pure ({ s with map := map }, out)
 
-def runCursor (m : IMap Int) (calls : Array ICall) : String := Id.run do
+def runCursor (m : IMap Int) (calls : Array XCall) : String := Id.run do
   let mut c := Cursor.new m.size
   let mut out := ""
   for x in calls do
-    let (c', o) := c.step x
-    c := c'
-    out := out ++ " " ++ showOut m o
+    match xstep (fun c k => pure (Cursor.step c k)) c x with
+    | .ok (c', o) =>
+      c := c'
+      out := out ++ " " ++ showOut m o
+    | .error _ => out := out ++ " fault"
   pure out
 
-/-- sorted iterator of a PQ (consumes a copy): `f` = pop, `h` = default size_hint -/
-def runSortedPQ (calls : Array ICall) (s : Store Int) : R (String × Nat) := do
-  let mut s := s
-  let t0 := s.ticks
-  let mut out := ""
-  for c in calls do
-    match c with
-    | .next =>
-      let (s', r) ← MaxQ.pop s
-      s := s'
-      out := out ++ " s " ++ showOptE r
-    | .sizeHint => out := out ++ " h 0 none"
-    | _ => out := out ++ " u"
-  pure (out, s.ticks - t0)
+/-- the sorted iterators as machines over the (consumed copy of the) store; outputs are printed directly -/
+inductive SOut where
+  | item (e : Option Entry)
+  | len (n : Nat)
+  | hint (lo : Nat) (hi : Option Nat)
+  | unsupported
 
-def runSortedDPQ (calls : Array ICall) (s : Store Int) : R (String × Nat) := do
+def sortedStep (kind : Kind) (s : Store Int) : ICall → R (Store Int × SOut)
+  | .next => do
+    let (s', r) ← (match kind with | .pq => MaxQ.pop s | .dpq => DQ.popMin s)
+    pure (s', .item r)
+  | .nextBack =>
+    match kind with
+    | .pq => pure (s, .unsupported)
+    | .dpq => do
+      let (s', r) ← DQ.popMax s
+      pure (s', .item r)
+  | .len => pure (s, match kind with | .pq => .unsupported | .dpq => .len s.size)
+  | .sizeHint => pure (s, match kind with | .pq => .hint 0 none | .dpq => .hint s.size (some s.size))
+
+def runSorted (kind : Kind) (calls : Array XCall) (s : Store Int) : R (String × Nat) := do
   let mut s := s
   let t0 := s.ticks
   let mut out := ""
   for c in calls do
-    match c with
-    | .next =>
-      let (s', r) ← DQ.popMin s
-      s := s'
-      out := out ++ " s " ++ showOptE r
-    | .nextBack =>
-      let (s', r) ← DQ.popMax s
-      s := s'
-      out := out ++ " s " ++ showOptE r
-    | .len => out := out ++ s!" l {s.size}"
-    | .sizeHint => out := out ++ s!" h {s.size} {s.size}"
+    let o ← match c with
+      | .prim c => do
+        let (s', o) ← sortedStep kind s c
+        s := s'
+        pure o
+      | .nth back k => do
+        let adv := if back then ICall.nextBack else ICall.next
+        let mut stop := false
+        for _ in [0:k] do
+          if !stop then
+            let (s', o) ← sortedStep kind s adv
+            s := s'
+            match o with
+            | .item (some _) => pure ()
+            | _ => stop := true
+        if stop then pure (SOut.item none)
+        else do
+          let (s', o) ← sortedStep kind s adv
+          s := s'
+          pure o
+    out := out ++ (match o with
+      | .item e => " s " ++ showOptE e
+      | .len n => s!" l {n}"
+      | .hint lo none => s!" h {lo} none"
+      | .hint lo (some hi) => s!" h {lo} {hi}"
+      | .unsupported => " u")
   pure (out, s.ticks - t0)
 
 def exec (st : St) (op : String) : Pm Res := do
@@ -345,7 +396,7 @@ def exec (st : St) (op : String) : Pm Res := do
   | "iter_mut" =>
     let mode ← tok
     let n ← nat
-    let prog ← rep n (do let c ← icall; let w ← writeP; pure (c, w))
+    let prog ← rep n (do let c ← xcall; let w ← writeP; pure (c, w))
     pure <| do
       let (s, out) ← runIterMut st.kind prog s
       let s ← if mode == "drop" then (match st.kind with | .pq => MaxQ.heapBuild s | .dpq => DQ.heapBuild s) else pure s
@@ -397,11 +448,11 @@ def exec (st : St) (op : String) : Pm Res := do
   | "clear" => pure <| .ok ({ st with s := s.clear }, "unit")
   | "drain" =>
     let _mode ← tok
-    let n ← nat; let calls ← rep n icall
+    let n ← nat; let calls ← rep n xcall
     let (es, s') := s.drain
     pure <| .ok ({ st with s := s' }, runCursor es calls)
   | "iter" | "into_iter" =>
-    let n ← nat; let calls ← rep n icall
+    let n ← nat; let calls ← rep n xcall
     pure <| .ok (st, runCursor s.map calls)
   | "into_vec" => pure <| .ok (st, showKeys s.map.toList)
   | "into_sorted_vec" =>
@@ -412,11 +463,9 @@ def exec (st : St) (op : String) : Pm Res := do
   | "into_asc_vec" => pure <| do let l ← DQ.intoAscendingSortedVec s; pure (st, showKeys l)
   | "into_desc_vec" => pure <| do let l ← DQ.intoDescendingSortedVec s; pure (st, showKeys l)
   | "into_sorted_iter" =>
-    let n ← nat; let calls ← rep n icall
+    let n ← nat; let calls ← rep n xcall
     pure <| do
-      let (out, _) ← match st.kind with
-        | .pq => runSortedPQ calls s
-        | .dpq => runSortedDPQ calls s
+      let (out, _) ← runSorted st.kind calls s
       pure (st, out)
   | "len" => pure <| .ok (st, toString s.size)
   | "is_empty" => pure <| .ok (st, toString s.isEmpty)
@@ -467,12 +516,11 @@ def copyOpTicks (st : St) (op : String) (args : List String) : Nat :=
               pure (s.ticks - t0) : R Nat) with
     | .ok n => n | .error _ => 0
   | "into_sorted_iter" =>
-    let calls := (args.drop 1).filterMap fun t =>
-      match t with | "f" => some ICall.next | "b" => some .nextBack | "l" => some .len | "h" => some .sizeHint | _ => none
-    match (match st.kind with
-           | .pq => runSortedPQ calls.toArray s
-           | .dpq => runSortedDPQ calls.toArray s) with
-    | .ok (_, n) => n | .error _ => 0
+    match ((rep (args.length - 1) xcall).run (args.drop 1)) with
+    | .ok (calls, _) =>
+      (match runSorted st.kind calls s with
+       | .ok (_, n) => n | .error _ => 0)
+    | .error _ => 0
   | "eq" | "append" => 0
   | _ => 0
 
